@@ -420,3 +420,10 @@ func (s *Sched) kill() {
 
 // Now is the fake time elapsed since Run started.
 func (s *Sched) Elapsed() time.Duration { return time.Since(s.Start) }
+
+// StepNow is the number of scheduler steps taken so far (readable from
+// tasks).
+//
+//go:norace
+//go:noinline
+func (s *Sched) StepNow() int { return s.Steps }
